@@ -59,11 +59,11 @@ func variadicElems(v ssa.Value) ([]ssa.Value, bool) {
 
 type histModel struct {
 	pkg        *ssa.Package
-	opIface    types.Type             // the traversal node interface (`operation`)
-	visitorIfc *types.Interface       // opVisitor
+	opIface    types.Type              // the traversal node interface (`operation`)
+	visitorIfc *types.Interface        // opVisitor
 	kinds      map[*types.Named]string // LEAF INNER PARTIAL GET WRAP
-	collect    *types.Named           // the wrapper whose visit records into the audit path
-	visitors   []*types.Named         // production implementations of the visitor interface
+	collect    *types.Named            // the wrapper whose visit records into the audit path
+	visitors   []*types.Named          // production implementations of the visitor interface
 }
 
 func buildHistModel(c *Ctx) *histModel {
